@@ -168,6 +168,12 @@ def run(ctx, rep):
     check_halt(ctx, rep)
     from rules import unsafe_inv
     unsafe_inv.check(ctx, rep, 'R02.7')
+    rep.rule('R02.9', 'a return goes back to where the call came from: pushframe saves the current code position whole in the frame being left, popframe restores ip / bp from the frame below and cuts the stack at the popped base (a narrowed or misplaced return address is a wild jump)')
+    from rules import c12 as _c12
+    _c12.frame_contracts(ctx, rep, 'R02.9')
+    rep.rule('R02.10', 'two function constants are the same only if entry AND frame size are: equality (which de-duplicates the constant pool) compares immediates by the whole word, after the tags')
+    from rules import shared as _sh, c15 as _c15
+    _sh.check_object_eq(F, rep, 'R02.10', _c15.heap_types(ctx))
 
 
 def check_halt(ctx, rep):
